@@ -1138,7 +1138,7 @@ func (c *c06env) corr(n int) {
 		{"add", "gcn3", "vop2", 25, map[string]uint32{"src0": v(0), "vsrc1": 1, "vdst": 2}},
 		{"add", "cdna3", "vop2", 25, map[string]uint32{"src0": v(0), "vsrc1": 1, "vdst": 2}},
 		{"addc_fresh", "gcn3", "vop2", 28, map[string]uint32{"src0": v(0), "vsrc1": 1, "vdst": 2}},
-		{"addc_inplace", "cdna3", "vop2", 28, map[string]uint32{"src0": v(0), "vsrc1": 1, "vdst": 2}},
+		{"addc_fresh", "cdna3", "vop2", 28, map[string]uint32{"src0": v(0), "vsrc1": 1, "vdst": 2}},
 		{"cmplt", "gcn3", "vopc", 0xC9, map[string]uint32{"src0": v(0), "vsrc1": 1}},
 		{"cmplt", "cdna3", "vopc", 0xC9, map[string]uint32{"src0": v(0), "vsrc1": 1}},
 		{"cndmask", "gcn3", "vop2", 0, map[string]uint32{"src0": v(0), "vsrc1": 1, "vdst": 2}},
